@@ -5,7 +5,8 @@ set -e
 export CARGO_NET_OFFLINE=true
 TGT="${VERIF_PY_TARGET_DIR:-/verif/target-py}"
 mkdir -p /verif/run
-if ! (cd /repo && CARGO_TARGET_DIR="$TGT" cargo build -p bourse --release --offline >/verif/run/build_py.$$.log 2>&1); then
+REPO="${VERIF_REPO_DIR:-/repo}"
+if ! (cd "$REPO" && CARGO_TARGET_DIR="$TGT" cargo build -p bourse --release --offline >/verif/run/build_py.$$.log 2>&1); then
     cat /verif/run/build_py.$$.log; rm -f /verif/run/build_py.$$.log
     echo "harness error: the bourse extension module failed to build"
     exit 2
@@ -13,6 +14,6 @@ fi
 rm -f /verif/run/build_py.$$.log
 PKG="${VERIF_PYPKG_DIR:-/verif/run/pypkg}"
 rm -rf "$PKG.tmp.$$"; mkdir -p "$PKG.tmp.$$"
-cp -r /repo/src/bourse "$PKG.tmp.$$/bourse"
+cp -r "$REPO/src/bourse" "$PKG.tmp.$$/bourse"
 cp "$TGT/release/libbourse.so" "$PKG.tmp.$$/bourse/core.so"
 rm -rf "$PKG"; mv "$PKG.tmp.$$" "$PKG"
